@@ -1500,6 +1500,16 @@ def s_iter_new(ex, st, call):
         n = v.data.get('len')
         if n is not None:
             v.data['items'] = [v.fields[('i', i)] for i in range(n)]
+    if call.c0.endswith('Vec::drain'):
+        # drain(..) moves the elements out (owned items) and leaves the vector empty; a partial range is not modelled
+        rng = deref(call.args[1]) if len(call.args) > 1 else None
+        full = ('RangeFull' in (getattr(rng, 'ty', '') or '')) or ('RangeFull' in call.callee) or ('RangeFull' in str(call.argops[1]) if getattr(call, 'argops', None) and len(call.argops) > 1 else False)
+        its = seq_items(v)
+        if not full or its is None:
+            return NotImplemented
+        moved = mk_seq(v.ty, list(its), v.name + '.drained')
+        v.data['items'] = []
+        return mk_iter(ex, st, call.dst_ty, moved, False)
     return mk_iter(ex, st, call.dst_ty, v, by_ref)
 
 
